@@ -317,6 +317,22 @@ def rule_covers(ctx: Ctx) -> None:  # noqa: C901
                 f"`{q}` is only replaced by a larger value ({'; '.join(t for _v, _n, t in verdicts)[:80]})",
                 f"`{q}`: `{bad[0][1] if bad else ''}` keeps the SMALLER value (min / reversed comparison): the result can be below an operand",
                 f"no max()/comparison between the operand's `{q}` and the accumulator was recognised", key=f"direction {q}")
+    # running-extremum discipline: a local that a loop compares the operand against (`cur > best`) is only overwritten where that
+    # comparison succeeded (or recomputed from the kept value); otherwise it tracks the LAST operand, not the largest
+    par_l = {id(c): p_ for p_ in ast.walk(lp["node"]) for c in ast.iter_child_nodes(p_)}
+    for cmp_ in [x for x in ast.walk(lp["node"]) if isinstance(x, ast.Compare) and len(x.ops) == 1 and isinstance(x.ops[0], (ast.Gt, ast.GtE, ast.Lt, ast.LtE)) and isinstance(par_l.get(id(x)), ast.If)]:
+        if_ = par_l[id(cmp_)]
+        for side in (cmp_.left, cmp_.comparators[0]):
+            if not isinstance(side, ast.Name):
+                continue
+            for a in [a for a in ast.walk(lp["node"]) if isinstance(a, ast.Assign) and any(isinstance(t, ast.Name) and t.id == side.id for t in a.targets)]:
+                other = cmp_.comparators[0] if side is cmp_.left else cmp_.left
+                copies_operand = isinstance(a.value, ast.Name) and isinstance(other, ast.Name) and a.value.id == other.id
+                inside = any(x is a for st in if_.body for x in ast.walk(st))
+                before = (a.lineno, a.col_offset) < (cmp_.lineno, cmp_.col_offset)
+                if copies_operand and not inside and not before:
+                    ctx.add("3-covers", fn, a, False, f"`{norm(a)}` overwrites the running extremum `{side.id}` for EVERY operand, outside `if {norm(cmp_)}`: the next operand is compared with the previous one, not with the largest so far, "
+                            "so combine_max can return less than an operand (e.g. 32GB, 8GB, 16GB -> 16GB)", key=f"running-max {side.id}")
     rets = [r for r in walk_no_nested(fn.node) if isinstance(r, ast.Return) and r.value is not None]
     last = norm(d.resolve(rets[-1].value)) if rets else ""
     ctx.tri("3-covers", fn, rets[-1] if rets else fn.node, last.startswith("Resources(**"), False, "the result is built from the accumulator through the constructor", "",
@@ -394,6 +410,41 @@ def rule_rest(ctx: Ctx) -> None:  # noqa: C901, PLR0915
         fullmatch = any(isinstance(c, ast.Call) and isinstance(c.func, ast.Attribute) and c.func.attr == "fullmatch" for c in nodes)
         ctx.tri("5-validated", f if f is not None else f"{MOD}.Resources.{fname}", f.node if f is not None else "", good or (bool(pats) and fullmatch), bool(pats) and not good and not fullmatch,
                 f"{what} pattern is anchored at both ends", f"{what} pattern `{pats[0] if pats else ''}` is not anchored: malformed strings pass", f"no {what} pattern found", key=f"{what}-anchored")
+    # shape of the wall-time pattern (read from the regex AST, not matched against strings): at most ONE field of free width
+    # (the leading days/hours count); every other field is a fixed two-digit field
+    wt = P.maybe_func(f"{MOD}.Resources._is_valid_wall_time")
+    if wt is not None:
+        import re._parser as rp  # type: ignore[import-not-found]
+
+        pats = [x.value for x in _scope_nodes(ctx, wt) if isinstance(x, ast.Constant) and isinstance(x.value, str) and "\\d" in x.value]
+        for pat in pats[:1]:
+            try:
+                tree = rp.parse(pat)
+            except Exception:  # noqa: BLE001
+                ctx.add("5-validated", wt, wt.node, None, f"UNDECIDED: wall-time pattern `{pat}` does not parse", key="wall-time-fields")
+                break
+
+            def free_fields(items, mult: int = 1) -> int:
+                """Upper bound on the number of unbounded-width digit runs a match can contain."""
+                total = 0
+                for op, av in items:
+                    name = str(op)
+                    if name in ("MAX_REPEAT", "MIN_REPEAT"):
+                        lo, hi, sub = av
+                        digits_only = all(str(o) == "IN" or str(o) == "CATEGORY" for o, _a in sub)
+                        if digits_only and int(hi) > 99:
+                            total += mult
+                        else:
+                            total += free_fields(sub, mult * (int(hi) if int(hi) < 99 else 99))
+                    elif name == "SUBPATTERN":
+                        total += free_fields(av[3], mult)
+                    elif name == "BRANCH":
+                        total += max((free_fields(b, mult) for b in av[1]), default=0)
+                return total
+
+            k = free_fields(list(tree))
+            ctx.tri("5-validated", wt, wt.node, k <= 1, k > 1, "the wall-time pattern has at most one field of free width (the leading one)",
+                    f"the wall-time pattern `{pat}` lets up to {k} fields have any number of digits: strings like '1:5:00:00' (an hours field that is not two digits) are accepted", key="wall-time-fields")
     gb = P.maybe_func(f"{MOD}.Resources._convert_to_gb")
     if gb is not None:
         nodes = _scope_nodes(ctx, gb)
